@@ -113,6 +113,8 @@ def replay(case) -> dict:
     rng = np.random.default_rng(case["_seed"])
     n = cfg["n"]
     pos = np.asarray(_positions(cfg["lattice"], n, rng), dtype=np.float64).reshape(n, 3)
+    if cfg.get("layout") == "f":
+        pos = np.asfortranarray(pos.astype(np.float32))       # e.g. np.array([zs, ys, xs]).T: column-major, already float32
     mol = Molecules(pos, _rotations(cfg["rots"], n, rng), features=_features(cfg["feats"], n, rng))
     ev = dict(id=str(case["_i"]), via=cfg["via"], suffix=cfg["suffix"], prec=cfg["prec"], cols=list(mol.features.columns),
               header=[], stored_as="", rows=_rows(mol), back=[], err="", cols_back=[])
@@ -145,6 +147,10 @@ def replay(case) -> dict:
             else:
                 ev["header"] = list(pl.read_parquet(path).columns)
         ev["back"] = _rows(back, ref_rot=mol.rotator)
+        # TLC integers are 32-bit: a reloaded coordinate that is far off is reported as "far off" (clamped to +-1e8 micro-units
+        # around the original), which keeps the verdict total instead of overflowing in the acceptor
+        for o, g in zip(ev["rows"], ev["back"]):
+            g["pos"] = [int(min(max(gv, ov - 10**8), ov + 10**8)) for ov, gv in zip(o["pos"], g["pos"])]
         ev["cols_back"] = list(back.features.columns)
     except Exception as e:  # noqa: BLE001
         ev["err"] = type(e).__name__ + ": " + str(e)[:120]
@@ -162,7 +168,7 @@ def run(rep: engine.Report, tier: str, seed: int):
     if not cases:
         raise engine.MachineryError("MC_C13 emitted nothing")
     budget = 1500 if tier == "quick" else len(cases)
-    sel = engine.stratified_sample(cases, lambda c: (c["cfg"]["via"], c["cfg"]["suffix"], c["cfg"]["prec"], c["cfg"]["rots"], c["cfg"]["feats"]), budget, seed)
+    sel = engine.stratified_sample(cases, lambda c: (c["cfg"]["via"], c["cfg"]["suffix"], c["cfg"]["prec"], c["cfg"]["rots"], c["cfg"]["feats"], c["cfg"]["layout"], c["cfg"]["n"] == 3), budget, seed)
     for i, c in enumerate(sel):
         c["_i"], c["_seed"] = i, seed * 100003 + i
     results = engine.parallel_replay("harness.props.c13", "replay", sel)
@@ -197,7 +203,7 @@ def replay_file(path: str) -> int:
 
 
 def selftest() -> int:
-    case = dict(_i=0, _seed=3, cfg=dict(n=3, lattice="d4", rots="rot24", feats="mixed", prec=4, via="csv", suffix=".csv"))
+    case = dict(_i=0, _seed=3, cfg=dict(n=3, lattice="d4", rots="rot24", feats="mixed", prec=4, via="csv", suffix=".csv", layout="c"))
     ev = replay(case)["events"]
     _, good = engine.validate_trace("Trace_Serial", ev, tag="self")
     bad_ev = json.loads(json.dumps(ev))
